@@ -57,8 +57,7 @@ namespace occa {
     if (!modeKernel) {
       return;
     }
-    modeKernel->removeKernelRef(this);
-    if (modeKernel->modeKernel_t::needsFree()) {
+    if (modeKernel->removeKernelRef(this)) {
       free();
     }
   }
